@@ -469,6 +469,53 @@ Section RingProofs2.
 End RingProofs2.
 
 (* ------------------------------------------------------------------------------------ *)
+(* fourth-order tensor with other_fields (any number type)                                *)
+(* ------------------------------------------------------------------------------------ *)
+Section Extra.
+  Context {T : Type} (ops : numops T).
+
+  Lemma take_all_spec : forall (fields : list (list T)) cells fs,
+    take_all fields cells = Ok fs ->
+    Forall2 (fun f f' => take_cells f cells = Ok f') fields fs.
+  Proof.
+    induction fields as [|f r IH]; intros cells fs H; cbn in H.
+    - injection H as <-. constructor.
+    - destruct (take_cells f cells) as [f'|] eqn:Ef; [|discriminate].
+      destruct (take_all r cells) as [r'|] eqn:Er; [|discriminate].
+      injection H as <-. constructor; auto.
+  Qed.
+
+  Lemma copy4x_of_constructed : forall mu la mats fields t,
+    fourth_order_x ops mu la mats fields = Ok t -> copy4x ops t = Ok t.
+  Proof.
+    intros mu la mats fields t H. unfold fourth_order_x in H.
+    destruct (Nat.eqb (length mu) (length la)) eqn:E; [|discriminate]. cbn in H.
+    injection H as <-. unfold copy4x, fourth_order_x. cbn. rewrite E. reflexivity.
+  Qed.
+
+  (* copy keeps, and restriction selects the requested cells of, EVERY constitutive
+     parameter (mu, lmbda and each extra field) and of the values *)
+  Lemma restrict4x_of_constructed : forall mu la mats fields t cells t',
+    fourth_order_x ops mu la mats fields = Ok t -> restrict4x ops t cells = Ok t' ->
+    take_cells mu cells = Ok (x_mu t') /\ take_cells la cells = Ok (x_lmbda t') /\
+    Forall2 (fun f f' => take_cells f cells = Ok f') fields (x_fields t') /\
+    take_cells (x_values t) cells = Ok (x_values t') /\ x_mats t' = mats.
+  Proof.
+    intros mu la mats fields t cells t' H Hr. unfold restrict4x in Hr.
+    rewrite (copy4x_of_constructed _ _ _ _ _ H) in Hr.
+    unfold fourth_order_x in H.
+    destruct (Nat.eqb (length mu) (length la)); [|discriminate]. cbn in H.
+    injection H as <-. cbn in Hr.
+    destruct (take_cells mu cells) as [m|]; [|discriminate].
+    destruct (take_cells la cells) as [l|]; [|discriminate].
+    destruct (take_all fields cells) as [fs|] eqn:Ef; [|discriminate].
+    match type of Hr with match ?X with _ => _ end = _ => destruct X as [v|] eqn:Ev end;
+      [|discriminate].
+    injection Hr as <-. cbn. repeat split; auto. now apply take_all_spec.
+  Qed.
+End Extra.
+
+(* ------------------------------------------------------------------------------------ *)
 (* the statements of Props/C40.v                                                          *)
 (* ------------------------------------------------------------------------------------ *)
 Lemma C40_second_order_symmetric_l :
@@ -592,4 +639,19 @@ Proof.
   intros T rO rI radd rmul rsub neg mu la t cells ops H. split.
   - intros t' Hr. exact (restrict4_of_constructed T rO rI radd rmul rsub neg mu la t cells t' H Hr).
   - intros e Hr. exact (restrict4_error T rO rI radd rmul rsub neg mu la t cells e H Hr).
+Qed.
+
+Lemma other_fields_l :
+  forall (T : Type) (ops : numops T) (mu la : list T) (mats : list (list (list T)))
+         (fields : list (list T)) (t : @tensor4x T) (cells : list Z),
+    fourth_order_x ops mu la mats fields = Ok t ->
+    copy4x ops t = Ok t /\
+    (forall t', restrict4x ops t cells = Ok t' ->
+       take_cells mu cells = Ok (x_mu t') /\ take_cells la cells = Ok (x_lmbda t') /\
+       Forall2 (fun f f' => take_cells f cells = Ok f') fields (x_fields t') /\
+       take_cells (x_values t) cells = Ok (x_values t') /\ x_mats t' = mats).
+Proof.
+  intros T ops mu la mats fields t cells H. split.
+  - exact (copy4x_of_constructed ops mu la mats fields t H).
+  - intros t' Hr. exact (restrict4x_of_constructed ops mu la mats fields t cells t' H Hr).
 Qed.
